@@ -230,6 +230,39 @@ func (l *Loader) lookupFunc(pkgPath, key string) *ssa.Function {
 	return l.prog.LookupMethod(t, sp.Pkg, name)
 }
 
+// fieldTypeByShort: the declared type of field "T.f" (nil when unknown).
+func (l *Loader) fieldTypeByShort(name string) types.Type {
+	parts := strings.SplitN(name, ".", 2)
+	if len(parts) != 2 {
+		return nil
+	}
+	var paths []string
+	for p := range l.pkgSpecs {
+		paths = append(paths, p)
+	}
+	sort.Strings(paths)
+	for _, p := range paths {
+		pk := l.byPath[p]
+		if pk == nil {
+			continue
+		}
+		obj := pk.Types.Scope().Lookup(parts[0])
+		if obj == nil {
+			continue
+		}
+		st, ok := obj.Type().Underlying().(*types.Struct)
+		if !ok {
+			continue
+		}
+		for i := 0; i < st.NumFields(); i++ {
+			if st.Field(i).Name() == parts[1] {
+				return st.Field(i).Type()
+			}
+		}
+	}
+	return nil
+}
+
 // compByShort resolves "T.f" against the packages under contract.
 func (l *Loader) compByShort(e *Exec, name string) (string, bool) {
 	parts := strings.SplitN(name, ".", 2)
